@@ -17,7 +17,9 @@ EXTENDS Naturals, Sequences, FiniteSets, TLC, SequencesExt, FiniteSetsExt
 
 CONSTANTS Names,       \* names that may occur in a tree
           MaxEntries,  \* entries per directory
-          MaxArgs      \* arguments per run
+          MaxArgs,     \* arguments per run
+          KeyMode      \* how the command tells files apart: "real" (the path with symbolic links resolved,
+                       \* the code since c1be75a) | "spelled" (the cleaned path as spelled, the code before)
 
 \* kind and attributes of a name (fixed alphabet; see lib/prop_c15.py)
 Kind(n) == CASE n \in {"a.go", "b.go", "c.txt"} -> "file"
@@ -40,9 +42,11 @@ Trees == {t \in [top : Small(Names), kids : [DirNames -> Small(Names)]] :
 Paths(t) == {<<n>> : n \in t.top} \cup UNION {{<<d, c>> : c \in t.kids[d]} : d \in t.top \cap DirNames}
 KindOf(p) == IF p = <<>> THEN "dir" ELSE Kind(Last(p))
 
-\* arguments: [path, abs, dots]
-ArgsOf(t) == {a \in [path : Paths(t) \cup {<<>>}, abs : BOOLEAN, dots : BOOLEAN] :
-                a.dots => KindOf(a.path) = "dir"}
+\* arguments: [path, abs, dots, via]; via = "l": the argument reaches its target through a symbolic link to the
+\* tree that lies next to it (another spelling of the same file or directory; the link itself is never the target)
+ArgsOf(t) == {a \in [path : Paths(t) \cup {<<>>}, abs : BOOLEAN, dots : BOOLEAN, via : {"w", "l"}] :
+                /\ (a.dots => KindOf(a.path) = "dir")
+                /\ (a.via = "l" => a.path # <<>>)}
 ArgLists(t) == UNION {[1..n -> ArgsOf(t)] : n \in 1..MaxArgs}
 \* the statement does not say what happens below a directory that is named
 \* explicitly but lies inside an excluded one: such arguments are not generated
@@ -66,7 +70,14 @@ IWalk(t, p) ==
   ELSE IF KindOf(p) # "dir" THEN {}                                 \* symlinks: neither regular nor directory
   ELSE IF p # <<>> /\ Excluded(Last(p)) THEN {}                      \* filepath.SkipDir
   ELSE UNION {IWalk(t, q) : q \in {x \in Paths(t) : Len(x) = Len(p) + 1 /\ IsPrefix2(p, x)}}
-ISet(t, args) == UNION {IWalk(t, args[i].path) : i \in 1..Len(args)}
+\* what the walks yield: paths as spelled (through the link or not)
+ISpelled(t, args) == UNION {{[via |-> args[i].via, p |-> q] : q \in IWalk(t, args[i].path)} : i \in 1..Len(args)}
+\* findFiles keeps one entry per key
+IKey(x) == IF KeyMode = "real" THEN [via |-> "w", p |-> x.p] ELSE x
+IEntries(t, args) == {IKey(x) : x \in ISpelled(t, args)}
+ISet(t, args) == {e.p : e \in IEntries(t, args)}
+\* how often a file is processed in one run
+ITimes(t, args, q) == Cardinality({e \in IEntries(t, args) : e.p = q})
 
 PathLess(p, q) ==
   \E k \in 1..Len(p) + 1 :
@@ -86,4 +97,5 @@ DesignOK ==
   LET f == IFiles(tree, args) IN
   /\ {f[i] : i \in 1..Len(f)} = RefSet(tree, args)
   /\ \A i, j \in 1..Len(f) : i < j => PathLess(f[i], f[j])          \* sorted, hence no duplicates
+  /\ \A q \in RefSet(tree, args) : ITimes(tree, args, q) = 1        \* each once, whatever the spellings
 ====
